@@ -32,7 +32,7 @@ type Prop struct {
 	// MaxWorkers caps the number of concurrent worker processes (0 = NumCPU).
 	MaxWorkers int
 	// CaseCPU is the CPU time (seconds, process-wide) one case may burn before
-	// the worker declares it non-terminating (0 = 300). It is a measure of work
+	// the worker declares it non-terminating (0 = 900). It is a measure of work
 	// done, not of wall-clock time, so it does not depend on the machine load;
 	// it must be orders of magnitude above what a case legitimately needs.
 	CaseCPU int
